@@ -38,6 +38,7 @@ namespace mon
       int top;
       const char* alphabet;   // NUL-free list given with explicit length
       std::size_t nalpha;
+      const char* prefixes;   // context matrix: selector bytes, one per inherited-mode context; every input = selector + body ("" = none)
       const signed char* akinds;   // per registry id, for the variant compiled in (may be null)
       const signed char* akinds_b; // the same for action family B (never contains change_action kinds)
       const signed char* sels;     // parse-tree selector per registry id: 0 not selected, 1 store, 2 remove_content, 3 fold_one, 4 discard_empty
@@ -60,8 +61,10 @@ namespace mon
       bool tree = false;
       int selvariant = 0;
       bool ana = false;
+      int client = 0;           // 1: run through coverage<>, 2: standard_trace, 3: complete_trace (monitor control wrapped by state_control)
       bool buf = false;
       int bufset = 0;           // 0: memory eager/lazy + buffer Chunk 1 and 3; 1: buffer Chunk 64, stream and file based inputs
+      bool top_nothing = false; // the top-level call uses apply_mode::nothing and rewind_mode::required (actions attached but disabled)
    };
 
    // buf configuration: observation record of one run (raw action log with positions, result, error text)
@@ -98,6 +101,9 @@ namespace mon
          return n;
       }
    };
+
+   // client-level check of the coverage facility (C08): per rule and per branch start == success + failure + unwind
+   void on_coverage_counters( std::string_view rule, std::string_view branch, std::size_t start, std::size_t success, std::size_t failure, std::size_t unwind );
 
    void set_registry( const reginfo* regs, std::size_t n, const char* const* custom_messages );
    int corpus_main( int argc, char** argv, const grammar* gs, std::size_t ng, const config& cfg );
